@@ -11,12 +11,13 @@ Input  {port, histories: [[op, ...], ...], dgrams: [{hex, src}], udp: [{hex}], w
 Every datagram goes through OscInterface._handle_request(bytes, (ip, port)) of the interface
 `iface`, in the main thread under a SIGALRM watchdog, then the script waits for the SystemClock
 task that runs the responders.
-Output per history, per op: {'log': invocations [[rid|77777, tag, msg, time, src_addr, src_port, recv_port], ...]
+Output per history, per op: {'log': invocations [[rid|77777, tag, msg, time, src_addr, src_port, recv_port, n_received], ...]
+        (fn['shape'] picks the callable's signature; fields it did not receive are null)
         (+ 'HANG' / 'RAISED:<type>' / 'OPERROR:<type>' markers),
         'state': {'en': [enabled flags], 'ex': [[path, [rid..]]..], 'mt': same, 'we'/'wm': wrapped_funcs order, 'cp': [rid..]}}
         -- the dispatchers' tables and CmdPeriod's registry restricted to this history's responders;
 per dgram {out, hang, raised, alive}."""
-import json, os, signal, socket, struct, sys, threading, time
+import functools, json, os, signal, socket, struct, sys, threading, time
 
 inp = json.load(open(sys.argv[1]))
 import sc3
@@ -147,22 +148,92 @@ def run_history(ops):
     resp = []
     shared = {}
 
+    builtin_owner = [None]
+
+    def rec(rid, tag, got):
+        """what the callable RECEIVED: the leading arguments it was given (None for the rest) and how many"""
+        n = len(got)
+        g = list(got) + [None] * (4 - n)
+        log.append([rid, tag,
+                    None if n < 1 else [list(g[0][0].encode('utf-8')), [enc(x) for x in g[0][1:]]],
+                    g[1], None if n < 3 else g[2].addr, None if n < 3 else g[2].port, g[3], n])
+
     def mk(rid, fn):
+        """a callable of the requested signature shape"""
         tag = fn['tag']
+        shape = fn.get('shape', 'full')
         if fn.get('share'):
             if tag not in shared:
                 def sf(msg, time, addr, port):
-                    log.append([WILD, tag, [list(msg[0].encode('utf-8')), [enc(x) for x in msg[1:]]],
-                                time, addr.addr, addr.port, port])
+                    rec(WILD, tag, (msg, time, addr, port))
                 shared[tag] = sf
             return shared[tag]
+        if shape == 'full':
+            def f(msg, time, addr, port):
+                rec(rid, tag, (msg, time, addr, port))
+                if fn.get('raises'):
+                    raise ValueError('responder %d raises' % rid)
+            return f
+        if shape == 'n3':
+            return lambda msg, time, addr: rec(rid, tag, (msg, time, addr))
+        if shape == 'n2':
+            return lambda msg, time: rec(rid, tag, (msg, time))
+        if shape == 'n1':
+            return lambda msg: rec(rid, tag, (msg,))
+        if shape == 'n0':
+            return lambda: rec(rid, tag, ())
+        if shape == 'posonly':
+            def f(msg, time, addr, port, /):
+                rec(rid, tag, (msg, time, addr, port))
+            return f
+        if shape == 'posonly2':
+            def f(msg, time, /):
+                rec(rid, tag, (msg, time))
+            return f
+        if shape == 'varargs':
+            def f(*args):
+                rec(rid, tag, args)
+            return f
+        if shape == 'mixed':
+            def f(msg, *rest):
+                rec(rid, tag, (msg,) + rest)
+            return f
+        if shape == 'kwonly':
+            def f(msg, time, *, flag=True, other=None):
+                rec(rid, tag, (msg, time))
+            return f
+        if shape == 'kwargs':
+            def f(msg, **kw):
+                rec(rid, tag, (msg,))
+            return f
+        if shape == 'defaults':
+            def f(msg, time=None, addr=None, port=None, extra=5):
+                rec(rid, tag, (msg, time, addr, port))
+            return f
+        if shape == 'partial':
+            def g(x, y, msg, time):
+                rec(rid, tag, (msg, time))
+            return functools.partial(g, 'x', 'y')
+        if shape == 'object':
+            class Callable:
+                def __call__(self, msg, time, addr):
+                    rec(rid, tag, (msg, time, addr))
+            return Callable()
+        if shape == 'method':
+            class Holder:
+                def m(self, msg):
+                    rec(rid, tag, (msg,))
+            return Holder().m
+        if shape == 'builtin':
+            builtin_owner[0] = (rid, tag)      # list.append of the log itself: (object, /) -- a builtin bound method
+            return log.append
+        raise ValueError(shape)
 
-        def f(msg, time, addr, port):
-            log.append([rid, tag, [list(msg[0].encode('utf-8')), [enc(x) for x in msg[1:]]],
-                        time, addr.addr, addr.port, port])
-            if fn.get('raises'):
-                raise ValueError('responder %d raises' % rid)
-        return f
+    def finish(x):
+        if isinstance(x[0], str):             # appended by the builtin responder: the message list itself
+            rid, tag = builtin_owner[0]
+            return [rid, tag, [list(x[0].encode('utf-8')), [enc(v) for v in x[1:]]], None, None, None, None, 1]
+        return x[:3] + [None if x[3] is None else enc_time(x[3])] + x[4:]
 
     def item(it):
         return None if it is None else (dec(it[1]) if it[0] == 'eq' else PREDS[it[1]])
@@ -232,7 +303,7 @@ def run_history(ops):
                     mark.append('RAISED:' + raised)
         except Exception as e:
             mark.append('OPERROR:' + type(e).__name__)
-        outs.append({'log': mark + [x[:3] + [enc_time(x[3])] + x[4:] for x in log], 'state': snapshot()})
+        outs.append({'log': mark + [finish(x) for x in log], 'state': snapshot()})
     for r in resp:
         try:
             r.free()
@@ -331,6 +402,22 @@ def probes():
     r0.free()
     r1.free()
     del log[:]
+    # callables with keyword-only / **kwargs parameters take fewer positional arguments than they have parameters
+    got = []
+
+    def kwf(msg, time, *, flag=True):
+        got.append(['kwonly', 2])
+
+    def kwa(msg, **kw):
+        got.append(['kwargs', 1])
+
+    def last(msg):
+        got.append(['last', 1])
+    k0, k1, k2 = OscFunc(kwf, '/c18p'), OscFunc(kwa, '/c18p'), OscFunc(last, '/c18p')
+    deliver(ifaces[0], m, ('127.0.0.1', 9))
+    out['signatures'] = got
+    for q in (k0, k1, k2):
+        q.free()
     # matching responders on /c18a, /c18b, /c18a and a pattern that matches both paths
     def mk2(tag):
         return lambda msg, time, addr, port: log.append(tag)
